@@ -3,6 +3,7 @@
 package natsmc
 
 import (
+	"time"
 	"bufio"
 	"fmt"
 	"net"
@@ -33,6 +34,9 @@ type FakeServer struct {
 	pongs  int
 	Errs   []string // -ERR sent
 	closed bool
+	// Eager, if set, gives the answer to a request with a payload above 1 MiB
+	// before that payload is read (see the PUB case of read).
+	Eager func(subject string) (payload []byte, status string)
 	// MaxControlLine is the server's limit for the arguments of a control line.
 	MaxControlLine int
 	done           chan struct{}
@@ -131,6 +135,13 @@ func (s *FakeServer) read(c net.Conn) {
 				return
 			}
 			n, _ := strconv.Atoi(f[len(f)-1])
+			// an eager service: it answers as soon as it has seen the control line
+			// of a big request, while the client is still writing the payload
+			if eager := s.Eager; eager != nil && n > 1<<20 && ((op == "PUB" && len(f) == 3) || (op == "HPUB" && len(f) == 4)) {
+				payload, status := eager(f[0])
+				s.Send(f[1], payload, status)
+				time.Sleep(100 * time.Millisecond)
+			}
 			buf := make([]byte, n+2)
 			if _, err := readFull(r, buf); err != nil {
 				return
